@@ -562,7 +562,7 @@ int main(int argc, char **argv)
     }
     else if (OP("drop_held", 2)) { int k = atoi(w[1]); if (k >= 0 && k < 16) { free(held[k].copy); held[k].copy = NULL; held[k].ptr = NULL; } printf("ok"); }
     else if (OP("set_format", 3)) { config_setting_t *p = at(w[1]); if (!p) printf("bad-op"); else printf("%d", config_setting_set_format(p, (unsigned short)atoi(w[2]))); }
-    else if (OP("set_hook", 3)) { config_setting_t *p = at(w[1]); if (!p) printf("bad-op"); else { config_setting_set_hook(p, (void *)(uintptr_t)strtoul(w[2], NULL, 10)); printf("ok"); } }
+    else if (OP("set_hook", 3)) { config_setting_t *p = at(w[1]); if (!p) printf("bad-op"); else { config_setting_set_hook(p, (void *)(uintptr_t)strtoul(w[2], NULL, 10)); printf("ok [%s]", logstr()); } }   /* replacing or detaching a hook never runs the destructor */
     else if (OP("set_int_elem", 4)) { config_setting_t *p = at(w[1]); if (!p) printf("bad-op"); else putpath(config_setting_set_int_elem(p, atoi(w[2]), (int)atoll(w[3]))); }
     else if (OP("set_int64_elem", 4)) { config_setting_t *p = at(w[1]); if (!p) printf("bad-op"); else putpath(config_setting_set_int64_elem(p, atoi(w[2]), atoll(w[3]))); }
     else if (OP("set_float_elem", 4)) {
